@@ -21,10 +21,13 @@ MISMATCH = T.Sentinel("<spec-mismatch>")
 
 
 class ObjModel(object):
-    def __init__(self, ctx, v, pins=None, run_init=True, stop_after=None):
-        """pins: slot name -> iterable of allowed values (case split)."""
+    def __init__(self, ctx, v, pins=None, run_init=True, stop_after=None, map_order="table"):
+        """pins: slot name -> iterable of allowed values (case split).  map_order: the order in
+        which the parsed metric map holds its keys ("table": the parser's table order, "reversed")
+        - used to decide whether an iteration of that map in field order matters."""
         self.ctx = ctx
         self.v = v
+        self.map_order = map_order
         info = VERSIONS[v]
         self.modname, self.clsname = info["mod"], info["cls"]
         self.cls = ctx.repo.cls(self.modname, self.clsname)
@@ -72,7 +75,10 @@ class ObjModel(object):
         m = MapObj(False, "parsed")
         m.input_ordered = True
         fo = st.folder()
-        for k in self.accepted:
+        keys_ = list(self.accepted)
+        if getattr(self, "map_order", "table") == "reversed":
+            keys_.reverse()
+        for k in keys_:
             s = getattr(self, "slot_rename", {}).get(k, metric_slot(k))
             pres = Fin((s,), dict(((x,), x is not ABSENT) for x in self.space.dom[s]))
             val = Fin((s,), dict(((x,), x) for x in self.space.dom[s]))
